@@ -109,7 +109,10 @@ Fixpoint assignable (p a : ty) {struct p} : bool :=
 Definition equal_types (l r : ty) : bool := assignable l r && assignable r l.
 
 (* ---- Merge: a.Merge(b).  Every recursive call of the Go code has a strict
-   component of [other] as its argument, so the model recurses on [b]. ------ *)
+   component of [other] as its argument, so the model recurses on [b].
+   Object case: the Go code looks a key of other.Props up in the map under
+   construction; the keys of a Go map are distinct, so this is the same as
+   looking it up in the receiver's Props, which is what the model does. ----- *)
 Section Merge.
 (* the result of merging two arrays of which at least one has element type any *)
 Variable arr_any : ty -> ty -> ty.
@@ -137,7 +140,7 @@ Fixpoint merge_gen (a b : ty) {struct b} : ty :=
                  match l with
                  | [] => acc
                  | kr :: l' =>
-                     go l' (match lookup (fst kr) (fst acc) with
+                     go l' (match lookup (fst kr) ps with
                             | Some l0 => (upsert (fst kr) (merge_gen l0 (snd kr)) (fst acc), snd acc)
                             | None => (fst acc ++ [(fst kr, snd kr)],
                                        match snd acc with Some x => Some (merge_gen x (snd kr)) | None => None end)
